@@ -311,7 +311,7 @@ def gen_filter(ctx):
 # ---------------------------------------------------------------------------------------------
 
 
-def run_ble_reassembly(ctx, response_items, pieces: int, negotiated: int, request_items, empty_last: bool = False) -> None:
+def run_ble_reassembly(ctx, response_items, pieces: int, negotiated: int, request_items, empty_last: bool = False, abort_after: int | None = None) -> None:
     from aiohomekit.controller.ble import client as ble_client
     from vf.sim_ble import FakeGattClient, FakeHandle, GattEndpointSim
 
@@ -329,7 +329,16 @@ def run_ble_reassembly(ctx, response_items, pieces: int, negotiated: int, reques
         n += 1
         ctx.count("ble_reassembly_empty_last_fragment")
     state = {"i": 0, "acks": []}
-    replay = {"part": "D", "items": plain, "pieces": pieces, "negotiated": negotiated, "request": [(t, bytes(v)) for t, v in request_items], "empty_last": empty_last}
+    replay = {"part": "D", "items": plain, "pieces": pieces, "negotiated": negotiated, "request": [(t, bytes(v)) for t, v in request_items], "empty_last": empty_last, "abort_after": abort_after}
+    # the accessory gives up on its fragmented reply after `abort_after` FragmentData items and answers the next
+    # acknowledgement with a plain, complete message (State + Error) instead
+    abort_reply = [(6, b"\x02"), (7, b"\x03")]
+    if abort_after is not None and not (1 <= abort_after < n - 1):
+        abort_after = None
+    if abort_after is not None:
+        ctx.count("ble_reassembly_aborted_by_accessory")
+    # how the accessory cuts each reply PDU into GATT reads: varies per case (short tails after several continuation packets included)
+    cut_style = (len(payload) * 7 + pieces * 3 + negotiated) % 6
 
     def responder(opcode, tid, iid, body):
         outer = dict(ref.decode(body or b""))
@@ -338,12 +347,29 @@ def run_ble_reassembly(ctx, response_items, pieces: int, negotiated: int, reques
         state["i"] += 1
         if n == 1:
             inner = payload
+        elif abort_after is not None and i == abort_after:
+            inner = ref.encode(abort_reply)
         elif i < n - 1:
             inner = ref.encode([(12, chunks[i])])
         else:
             inner = ref.encode([(13, chunks[i])])
         rbody = ref.encode([(1, inner)])
-        return 0, rbody, [40, 90] if len(rbody) > 100 else None, None
+        L = len(rbody)
+        if L <= 12:
+            cuts = None
+        elif cut_style == 0:
+            cuts = [40, 90] if L > 100 else None
+        elif cut_style == 1:
+            cuts = [L // 3, 2 * L // 3, L - 1]  # three continuation packets, the last carries ONE byte
+        elif cut_style == 2:
+            cuts = [L // 2, L - 2]
+        elif cut_style == 3:
+            cuts = list(range(10, L, 10)) + [L - 1]
+        elif cut_style == 4:
+            cuts = [0, L - 3]  # header-only first packet
+        else:
+            cuts = [L - 4, L - 2, L - 1]
+        return 0, rbody, cuts, None
 
     handle = FakeHandle("0000004C-0000-1000-8000-0026BB765291", 10)
     client = FakeGattClient(negotiated)
@@ -369,6 +395,12 @@ def run_ble_reassembly(ctx, response_items, pieces: int, negotiated: int, reques
         ctx.violation(f"ble-reassembly-raises-{type(ex).__name__}", f"_pairing_char_write raised {ex!r} with {n} pieces", replay)
         return
     got_n = {int(k): bytes(v) for k, v in got.items()}
+    if abort_after is not None:
+        # the last thing the accessory said is a complete message of its own: that is the reply (never a message put
+        # together from the abandoned pieces, which nobody sent)
+        if got_n != dict(abort_reply):
+            ctx.violation("ble-reassembly-returns-message-nobody-sent", f"accessory abandoned its fragmented reply after {abort_after} of {n} pieces and answered {abort_reply}; controller returned {[(k, len(v)) for k, v in got_n.items()]}", replay)
+        return
     if got_n != dict(plain):
         ctx.violation("ble-reassembly-mismatch", f"{n} pieces: got {[(k, len(v)) for k, v in got_n.items()]} want {[(k, len(v)) for k, v in plain]}", replay)
         return
@@ -395,8 +427,10 @@ def gen_ble(ctx):
         for pieces in range(1, 51):
             idx += 1
             if ctx.mine(idx):
-                yield resp, pieces, (23 if idx % 3 else 200), request, False
-                yield resp, pieces, (23 if idx % 3 else 200), request, True
+                yield resp, pieces, (23 if idx % 3 else 200), request, False, None
+                yield resp, pieces, (23 if idx % 3 else 200), request, True, None
+                if pieces >= 3:
+                    yield resp, pieces, (23 if idx % 3 else 200), request, False, 1 + idx % (pieces - 2)
     ctx.exhaustive_parts["D.pieces_1..50_x_3_messages"] = True
     for k in range(ctx.pick(60, 1500) // ctx.nshards):
         items = []
@@ -405,7 +439,7 @@ def gen_ble(ctx):
             t = rng.choice([x for x in (0, 1, 2, 3, 4, 5, 6, 7, 9, 10, 14) if x not in used])
             used.add(t)
             items.append((t, rng.randbytes(rng.choice([1, 16, 32, 64, 255, 256, 384, 700]))))
-        yield items, rng.randint(1, 50), rng.choice([23, 64, 155, 244, 512]), request, rng.random() < 0.3
+        yield items, rng.randint(1, 50), rng.choice([23, 64, 155, 244, 512]), request, rng.random() < 0.3, None
 
 
 # ---------------------------------------------------------------------------------------------
@@ -418,8 +452,8 @@ def run(ctx) -> None:
         check_totality(ctx, data, fn, origin)
     for items, expected, origin in gen_filter(ctx):
         check_filter(ctx, items, expected, origin)
-    for resp, pieces, negotiated, request, empty_last in gen_ble(ctx):
-        run_ble_reassembly(ctx, resp, pieces, negotiated, request, empty_last)
+    for resp, pieces, negotiated, request, empty_last, abort_after in gen_ble(ctx):
+        run_ble_reassembly(ctx, resp, pieces, negotiated, request, empty_last, abort_after)
 
 
 def replay(ctx, d) -> None:
@@ -431,4 +465,4 @@ def replay(ctx, d) -> None:
     elif part == "C":
         check_filter(ctx, [tuple(x) for x in d["items"]], d["expected"], "replay")
     elif part == "D":
-        run_ble_reassembly(ctx, [tuple(x) for x in d["items"]], d["pieces"], d["negotiated"], [tuple(x) for x in d["request"]], d.get("empty_last", False))
+        run_ble_reassembly(ctx, [tuple(x) for x in d["items"]], d["pieces"], d["negotiated"], [tuple(x) for x in d["request"]], d.get("empty_last", False), d.get("abort_after"))
